@@ -15,12 +15,21 @@ import vlib
 from vlib import log
 
 
-def validate_records(module, cfg, path, wd, tag, max_rejections=5, timeout=900):
+def validate_records(module, cfg, path, wd, tag, max_rejections=5, timeout=900, env=None):
     """Independent records, one per line: TLC consumes them in order; a record it cannot explain is
     reported, cut out, and validation continues behind it."""
     with open(path, errors="replace") as fh:
         lines = [x for x in fh if x.strip()]
-    res = {"records": len(lines), "accepted": 0, "rejected": [], "kf": [], "tlc_states": 0, "incomplete": False}
+    # marker records written by the driver's signal handler are not observations: the death itself is
+    # reported by the caller (driver exit status); TLC only sees complete records
+    markers = [x for x in lines if x.startswith('{"e":"died"') or x.startswith('{"e":"hang"')]
+    if markers:
+        lines = [x for x in lines if x not in markers]
+        path = path + ".clean"
+        with open(path, "w") as fh:
+            fh.writelines(lines)
+    res = {"records": len(lines), "accepted": 0, "rejected": [], "kf": [], "tlc_states": 0, "incomplete": False,
+           "death_markers": len(markers)}
     pos = 0
     rnd = 0
     while pos < len(lines):
@@ -29,10 +38,13 @@ def validate_records(module, cfg, path, wd, tag, max_rejections=5, timeout=900):
         if pos:
             with open(tp, "w") as fh:
                 fh.writelines(lines[pos:])
-        rc, outp = vlib.run_tlc(module, cfg, wd, "%s.v%d" % (tag, rnd), workers=1, timeout=timeout, env={"TRACE": tp})
+        e = {"TRACE": tp}
+        if env:
+            e.update(env)
+        rc, outp = vlib.run_tlc(module, cfg, wd, "%s.v%d" % (tag, rnd), workers=1, timeout=timeout, env=e)
         r = vlib.parse_tlc(outp)
-        if r["fatal"] or (r["depth"] is None and not r["errors"]):
-            raise vlib.ToolFailure("TLC failed validating %s: rc=%s %s (see %s)" % (path, rc, r["fatal"], outp))
+        if r["fatal"] or r["depth"] is None:
+            raise vlib.ToolFailure("TLC failed validating %s: rc=%s %s %s (see %s)" % (path, rc, r["fatal"], r["errors"][:1], outp))
         res["tlc_states"] += r["states"] or 0
         for (l, name) in r["kf"]:
             res["kf"].append({"record": pos + l - 1, "kf": name})
@@ -70,17 +82,45 @@ def shard_lines(lines, wd, base, n):
 def run_pure(binary, mode, inputs, wd, base, jobs=vlib.NCPU, timeout=600):
     """Runs puredriver on every input shard in parallel; returns list of (in, out, events)."""
     def go(p):
+        """Runs the driver over one input shard; when it dies on an input, that input is recorded as an
+        event and the driver is restarted behind it, so the rest of the shard is still executed."""
         out = p.replace(".in.ndjson", ".out.ndjson")
         env = dict(os.environ)
-        env.setdefault("ASAN_OPTIONS", "detect_leaks=0:exitcode=99")
+        env.setdefault("ASAN_OPTIONS", "detect_leaks=0:exitcode=99:allocator_may_return_null=1")
         env.setdefault("UBSAN_OPTIONS", "print_stacktrace=1:halt_on_error=1:exitcode=99")
+        with open(p) as fh:
+            todo = fh.readlines()
+        events = []
+        open(out, "w").close()
+        part = 0
+        while todo:
+            part += 1
+            pin, pout = "%s.p%d" % (p, part), "%s.p%d" % (out, part)
+            with open(pin, "w") as fh:
+                fh.writelines(todo)
+            try:
+                r = subprocess.run([binary, mode, pin, pout], stdout=subprocess.PIPE, stderr=subprocess.PIPE, timeout=timeout, env=env)
+                rc, err = r.returncode, r.stderr.decode(errors="replace")[-3000:]
+            except subprocess.TimeoutExpired:
+                rc, err = 124, "timeout"
+            done = []
+            if os.path.exists(pout):
+                with open(pout, errors="replace") as fh:
+                    done = [x for x in fh if x.strip() and not x.startswith('{"e":"died"') and not x.startswith('{"e":"hang"')]
+            with open(out, "a") as fh:
+                fh.writelines(done)
+            if rc == 0:
+                break
+            culprit = todo[len(done)] if len(done) < len(todo) else None
+            events.append({"rc": rc, "stderr": err, "input": culprit and culprit[:2000]})
+            todo = todo[len(done) + 1:]
+            if len(events) >= 25 or rc == 124:
+                break
         ev = None
-        try:
-            r = subprocess.run([binary, mode, p, out], stdout=subprocess.PIPE, stderr=subprocess.PIPE, timeout=timeout, env=env)
-            if r.returncode != 0:
-                ev = {"rc": r.returncode, "stderr": r.stderr.decode(errors="replace")[-3000:]}
-        except subprocess.TimeoutExpired:
-            ev = {"rc": 124, "stderr": "timeout"}
+        if events:
+            ev = dict(events[0])
+            ev["deaths"] = len(events)
+            ev["all"] = events[:10]
         return (p, out, ev)
 
     with ThreadPoolExecutor(jobs) as ex:
